@@ -44,6 +44,12 @@ type RunConfig struct {
 	SiteFaults bool
 	// CorruptP: probability that a marshalled frame is corrupted in transit (C13)
 	CorruptP float64
+	// AllFailScenario (C11): the run consists of one stream call all of whose nodes fail (stored
+	// in replay files)
+	AllFailScenario bool `json:",omitempty"`
+	// ProbeNSW (C10): the whole workload of the run and the probes consist of fire-and-forget one-way
+	// calls (WithNoSendWaiting); a probe succeeds when the node's current incarnation has handled it
+	ProbeNSW bool
 	// FreeTasks: harness tasks are not scheduled one at a time (race-detector runs: the
 	// scheduler's hand-over would order every pair of accesses by happens-before)
 	FreeTasks bool
@@ -111,6 +117,9 @@ type QFSpec struct {
 	NeedServer int
 	// Slow: the quorum function passes a scheduler gate before returning.
 	Slow bool
+	// StallMs: the first invocation does not return before this much (simulated) time has passed
+	// since it began (a quorum function that is really slow: replies pile up meanwhile)
+	StallMs int `json:",omitempty"`
 	// NonNilOnFalse: return a non-nil value together with quorum == false.
 	NonNilOnFalse bool
 	// Levels (correctable): level returned by the k-th invocation (last repeats).
